@@ -31,3 +31,6 @@ reg("C16", "gated process-pool worker exposes every launched body simultaneously
 reg("C17", "differential monitor across workers, process counts, limits and chosen completion orders (deep equality of outputs)",
     "Each generated workflow is run under debug, cf with 1/2/8 processes, concurrency limits and gated release orders in fresh caches; all outputs must be equal (and equal to the reference where it applies).",
     "configurations listed in evidence; schedule coverage = executed release orders")
+reg("C18", "lasso (repeated loop state) detectors hooked on DiGraph._sorting and on the sequential execution loop, plus an inconclusive-only wall-clock watchdog",
+    "Liveness restated as bounded progress: generated graphs with back-edges (self-loop, 2-cycle, long cycle, off-path cycle, typed/untyped, acyclic re-wiring) and an unstable-hash 'cannot progress' family are submitted to the real engine; every submission must end with outputs or an error, a repeated no-progress loop state is a violation with the state as witness.",
+    "hangs outside the two monitored loops would surface as inconclusive (watchdog), not as violations")
